@@ -20,7 +20,7 @@ TNext ==
           THEN st' = CInitR(ToSetQ(ev.threads), ev.allready) /\ l' = l + 1 /\ UNCHANGED <<bad, fin>>
         ELSE IF ev.e = "summary"
           THEN l' = l + 1 /\ UNCHANGED <<st, bad, fin>>
-        ELSE IF ev.e \in {"lockprobe", "lockfree"}
+        ELSE IF ev.e \in {"lockprobe", "lockfree", "handoff"}
           THEN /\ l' = l + 1 /\ UNCHANGED <<st, fin>>
                /\ bad' = IF ProbeAllowed(ev) THEN bad ELSE Append(bad, l)
         ELSE IF ThAllowed(st, ev)
